@@ -42,6 +42,8 @@ var docTexts = []struct {
 	{"code-block-with-marker-lines", []string{"shows a patch and a decorator:", "", "\t+added line", "\t@@ -1,2 +1,2 @@", "\t-removed line", "\t@name(\"arg\")"}},
 	// lines shaped like `word:value` (what a linter directive looks like when written WITHOUT the blank after the slashes)
 	{"word-colon-value-lines", []string{"port:8080 is the default.", "json:name of the field, debug:0 info:1", "nolint:unused is what a directive looks like"}},
+	// a backquote TOGETHER with quotes and backslashes in one line (no single Go string syntax takes it verbatim)
+	{"backquote-with-quote-and-backslash", []string{"is decoded from `json:\"name\"` and matches `\\d+` or \"a\\b\"."}},
 	{"leading-name-then-odd-spacing", []string{"$T  has two blanks.  Two more,\ta tab, a no-break\u00a0space and an ideographic\u3000space.", "a second line   with runs of blanks"}},
 }
 
